@@ -46,7 +46,8 @@ def gen_case(rng, i):
         flags.append('--no-stderr')
     if spec['status'] != 0 or rng.random() < 0.2:
         flags.append('--non-zero-exit')
-    script = rng.choice(['test_gen.py', 'test_gen.py', 'gen', 'gen.py', 'ABS', 'OMIT'])
+    script = rng.choice(['test_gen.py', 'test_gen.py', 'gen', 'gen.py', 'ABS', 'OMIT', 'test__other.py', 'test__gen'])
+    # ('test__other.py' keeps its references in ref/_other, beside the decoy suite test_other.py with its ref/other)
     names = [f['name'] for f in spec['files'] if not f['name'].startswith(GC.TMP_PREFIX)]
     refmode = rng.choice(['explicit', 'dot', 'none', 'glob']) if names else rng.choice(['none', 'dot'])
     if refmode == 'glob' and not all(n.startswith('out') and '/' not in n for n in names):
@@ -176,7 +177,8 @@ def generate(ctx, case, tag='g'):
         if not stem.startswith('test'):
             stem = 'test_' + stem
         g.script = os.path.join(workdir, stem + '.py')
-    g.refname = os.path.basename(g.script)[4:-3].lstrip('_') if os.path.basename(g.script)[4:5] == '_' else os.path.basename(g.script)[4:-3]
+    stem_ = os.path.basename(g.script)[4:-3]
+    g.refname = stem_[1:] if stem_.startswith('_') else stem_        # (one underscore belongs to "test_", the rest to the name)
     g.refdir = os.path.join(workdir, 'ref', g.refname)
     if case['previous_generation']:
         forkserver.fork_run(console_main, ['tdda'] + argv, cwd=workdir, env=env, scratch=ctx.scratch, stdin_bytes=g.stdin)
